@@ -79,7 +79,14 @@ def targets(ctx):
     c = corpus()
     schema = c.schema
     adapter = BPAdapter(schema)
-    MSGS = ["Scalars", "Optionals", "Repeats", "Maps", "Oneofs", "Wrappers", "Times", "Tags", "Rec", "Leaf", "Mixed"]
+    MSGS = ["Scalars", "Optionals", "Repeats", "Maps", "Oneofs", "Wrappers", "Times", "Tags", "Rec", "Leaf", "Mixed", "Solo"]
+    # the classes under test: the default plugin output or (case["variant"] == "pydantic") the pydantic_dataclasses output of
+    # the same corpus; reference, schema and oracle are the same
+    cur = {"c": c}
+
+    def use_variant(case):
+        cur["c"] = corpus(opts=("pydantic_dataclasses",)) if case.get("variant") == "pydantic" else c
+        return "|pydantic" if case.get("variant") == "pydantic" else ""
 
     def build(cls, mi, fi, state, route, tree):
         if route == "ctor":
@@ -117,7 +124,7 @@ def targets(ctx):
 
     @collecting
     def cell_clauses(out, msg, fname, state, route):
-        cls = c.bp(msg)
+        cls = cur["c"].bp(msg)
         mi = schema.msg(f"ks.{msg}")
         fi = mi.by_name(fname)
         info = BPInfo.of(cls)
@@ -187,18 +194,21 @@ def targets(ctx):
                 for state in ("unset", "default", "nondefault"):
                     for route in ("ctor", "setattr", "parse", "from_dict"):
                         yield {"msg": msg, "field": fi.name, "state": state, "route": route}
+                        if route != "ctor" or state != "unset":
+                            yield {"msg": msg, "field": fi.name, "state": state, "route": route, "variant": "pydantic"}
 
     def cell_ev(case):
         mi = schema.msg(f"ks.{case['msg']}")
         fi = mi.by_name(case["field"])
+        vtag = use_variant(case)
         found = cell_clauses(case["msg"], case["field"], case["state"], case["route"])
-        fails = [Failure(cl, f"cell|{cl}|{fi.kind}|{case['state']}|{case['route']}", f"case={case!r} :: {d}") for cl, d in found]
+        fails = [Failure(cl, f"cell|{cl}|{fi.kind}|{case['state']}|{case['route']}{vtag}", f"case={case!r} :: {d}") for cl, d in found]
         return Eval(fails, nontrivial=case["state"] != "unset", labels=[f"kind:{fi.kind}", f"state:{case['state']}", f"route:{case['route']}"])
 
     # fresh messages
     @collecting
     def fresh_clauses(out, msg):
-        cls = c.bp(msg)
+        cls = cur["c"].bp(msg)
         mi = schema.msg(f"ks.{msg}")
         info = BPInfo.of(cls)
         m = guard("construct", cls)
@@ -240,10 +250,12 @@ def targets(ctx):
     def fresh_cases():
         for msg in MSGS + ["Empty"]:
             yield {"fresh": msg}
+            yield {"fresh": msg, "variant": "pydantic"}
 
     def fresh_ev(case):
+        vtag = use_variant(case)
         found = fresh_clauses(case["fresh"])
-        return Eval([Failure(cl, f"fresh|{cl}|{case['fresh']}", d) for cl, d in found], nontrivial=True, labels=["fresh"])
+        return Eval([Failure(cl, f"fresh|{cl}|{case['fresh']}{vtag}", d) for cl, d in found], nontrivial=True, labels=["fresh"])
 
     # a message that was RECEIVED empty - through every decoding entry point - and is then embedded as a plain sub-message
     from io import BytesIO
@@ -264,7 +276,7 @@ def targets(ctx):
 
     @collecting
     def received_clauses(out, way, host, field, sub, how):
-        S, H = c.bp(sub), c.bp(host)
+        S, H = cur["c"].bp(sub), cur["c"].bp(host)
         mi = schema.msg(f"ks.{host}")
         fi = mi.by_name(field)
         got = guard("receive", RECEIVE[way], S)
@@ -306,13 +318,13 @@ def targets(ctx):
         "scalar_depth2_value": ("Rec", lambda m: setattr(m.rec.rec, "i32", 7), {"rec": {"rec": {"i32": 7}}}, 1),
         "oneof_depth1_default": ("Rec", lambda m: setattr(m.rec, "ostr", ""), {"rec": {"ostr": ""}}, 1),
         "oneof_depth1_value": ("Rec", lambda m: setattr(m.rec, "ostr", "x"), {"rec": {"ostr": "x"}}, 1),
-        "oneof_msg_depth1_default": ("Scalars", lambda m: setattr(m.f_rec, "orec", c.bp("Rec")()), {"f_rec": {"orec": {}}}, 20),
+        "oneof_msg_depth1_default": ("Scalars", lambda m: setattr(m.f_rec, "orec", cur["c"].bp("Rec")()), {"f_rec": {"orec": {}}}, 20),
         "optional_depth1_default": ("Mixed", lambda m: setattr(m.optionals, "o_int32", 0), {"optionals": {"o_int32": 0}}, 2),
         "optional_depth1_empty_string": ("Mixed", lambda m: setattr(m.optionals, "o_string", ""), {"optionals": {"o_string": ""}}, 2),
         "wrapper_depth1_default": ("Mixed", lambda m: setattr(m.wrappers, "w_int32", 0), {"wrappers": {"w_int32": 0}}, 6),
         "oneof_in_oneofs_depth1_default": ("Mixed", lambda m: setattr(m.oneofs, "a_bool", False), {"oneofs": {"a_bool": False}}, 5),
-        "container_append_depth1": ("Rec", lambda m: m.rec.kids.append(c.bp("Rec")(i32=1)), {"rec": {"kids": [{"i32": 1}]}}, 1),
-        "container_map_depth1": ("Rec", lambda m: m.rec.m.__setitem__("k", c.bp("Rec")(i32=1)), {"rec": {"m": [["k", {"i32": 1}]]}}, 1),
+        "container_append_depth1": ("Rec", lambda m: m.rec.kids.append(cur["c"].bp("Rec")(i32=1)), {"rec": {"kids": [{"i32": 1}]}}, 1),
+        "container_map_depth1": ("Rec", lambda m: m.rec.m.__setitem__("k", cur["c"].bp("Rec")(i32=1)), {"rec": {"m": [["k", {"i32": 1}]]}}, 1),
         "container_scalar_list_depth1": ("Mixed", lambda m: m.repeats.r_int32.append(5), {"repeats": {"r_int32": [5]}}, 3),
         # the value that is assigned is the very object a previous READ left in the field (small ints / "" are shared)
         "read_then_scalar_depth1_default": ("Rec", lambda m: (m.rec.i32, setattr(m.rec, "i32", 0)), {"rec": {}}, 1),
@@ -326,7 +338,7 @@ def targets(ctx):
     @collecting
     def lazy_clauses(out, name):
         msg, mutate, want_tree, sub_number = LAZY[name]
-        cls = c.bp(msg)
+        cls = cur["c"].bp(msg)
         mi = schema.msg(f"ks.{msg}")
         m = cls()
         guard("mutate", mutate, m)
@@ -357,7 +369,7 @@ def targets(ctx):
     # combinations decoded from reference bytes
     @collecting
     def combo_clauses(out, msg, tree):
-        cls = c.bp(msg)
+        cls = cur["c"].bp(msg)
         mi = schema.msg(f"ks.{msg}")
         info = BPInfo.of(cls)
         r = to_ref(schema, c.ref, mi.full_name, tree)
@@ -383,9 +395,10 @@ def targets(ctx):
     def combo_ev(case):
         msg, tree = case["msg"], case["tree"]
         mi = schema.msg(f"ks.{msg}")
+        vtag = use_variant(case)
         found = combo_clauses(msg, tree)
         tracked = [fi for fi in mi.fields if fi.name in tree and fi.explicit_presence]
-        return Eval([Failure(cl.split("|")[0], f"combo|{cl}", f"case={case!r} :: {d}") for cl, d in found],
+        return Eval([Failure(cl.split("|")[0], f"combo|{cl}{vtag}", f"case={case!r} :: {d}") for cl, d in found],
                     nontrivial=len(tracked) >= 2, labels=cm.labels_for(schema, mi, tree))
 
     # what is emitted, record by record: exactly the fields the value holds (never an implicit-presence default,
@@ -430,7 +443,7 @@ def targets(ctx):
 
     @collecting
     def emit_clauses(out, msg, tree, route):
-        cls = c.bp(msg)
+        cls = cur["c"].bp(msg)
         mi = schema.msg(f"ks.{msg}")
         m = guard("build", emit_adapter.build, cls, mi, tree, route)
         b = guard("bytes", bytes, m)
@@ -463,7 +476,8 @@ def targets(ctx):
         case["route"] = draw(st.sampled_from(["kwargs", "setattr"]))
         return case
 
-    combo = cm.msg_tree_strategy(c, names=["Optionals"] * 3 + ["Oneofs"] * 3 + ["Wrappers"] * 2 + ["Scalars", "Rec", "Mixed", "Times"])
+    combo = st.tuples(cm.msg_tree_strategy(c, names=["Optionals"] * 3 + ["Oneofs"] * 3 + ["Wrappers"] * 2 + ["Scalars", "Rec", "Mixed", "Times", "Solo", "Solo"]),
+                      st.sampled_from(["std", "std", "pydantic"])).map(lambda t: {**t[0], "variant": t[1]})
 
     return [
         Target("fresh_messages", fresh_ev, cases=fresh_cases, exhaustive=True, shard_cases=False),
